@@ -60,10 +60,10 @@ def gen_board_id(rng, i):
 def gen_deal(rng):
     k = rng.random()
     cards = list(rb.CARDS)
-    if k < 0.75:
+    if k < 0.62:
         rng.shuffle(cards)
         hands = [cards[0:13], cards[13:26], cards[26:39], cards[39:52]]
-    elif k < 0.85:
+    elif k < 0.72:
         # each seat holds one complete suit (voids everywhere)
         suits = list(rb.SUITS)
         rng.shuffle(suits)
@@ -71,7 +71,7 @@ def gen_deal(rng):
     else:
         # shaped: one seat gets a long suit, the rest random
         long_suit = rng.choice(rb.SUITS)
-        n = rng.randint(8, 12)
+        n = rng.randint(7, 13)
         suit_cards = [long_suit + r for r in rb.RANKS]
         rng.shuffle(suit_cards)
         first = suit_cards[:n]
@@ -186,14 +186,39 @@ def gen_auction(rng, dealer, style):
     return calls, a
 
 
-def gen_play(rng, deal, declarer, denom, revoke=0.0):
+def gen_play(rng, deal, declarer, denom, revoke=0.0, ruffy=False):
+    """ruffy: a style of play that makes the rarer trick shapes common -- the leader prefers a
+    side suit in which as many of the other three hands as possible are void, and a hand that
+    cannot follow ruffs (with a random trump) whenever it can: several ruffs and overruffs on one
+    trick, in every rank order."""
     p = rb.Play(deal, declarer, denom)
     cards = []
+    trump = p.trump
     while not p.done:
         if revoke and rng.random() < revoke:
             pool = sorted(p.hands[p.turn], key=rb.card_index)
         else:
             pool = sorted(p.follow_set(), key=rb.card_index)
+        if ruffy and trump:
+            hand = p.hands[p.turn]
+            if not p.trick:
+                others = [s for s in rb.SEATS if s != p.turn]
+                best = {}
+                for c in pool:
+                    if c[0] == trump:
+                        continue
+                    best[c[0]] = sum(1 for o in others
+                                     if not any(x[0] == c[0] for x in p.hands[o]) and
+                                     any(x[0] == trump for x in p.hands[o]))
+                if best and max(best.values()) >= 2:
+                    top = max(best.values())
+                    pool = [c for c in pool if best.get(c[0]) == top]
+            else:
+                led = p.trick[0][0]
+                if not any(c[0] == led for c in hand):
+                    trumps = [c for c in hand if c[0] == trump]
+                    if trumps:
+                        pool = sorted(trumps, key=rb.card_index)
         c = rng.choice(pool)
         p.apply(c)
         cards.append(c)
@@ -211,7 +236,8 @@ def gen_script(rng, boards, style=None):
         cards = []
         if res['declarer'] is not None:
             revoke = 0.15 if rng.random() < 0.25 else 0.0
-            cards, _ = gen_play(rng, b['deal'], res['declarer'], res['denom'], revoke)
+            ruffy = rng.random() < 0.5
+            cards, _ = gen_play(rng, b['deal'], res['declarer'], res['denom'], revoke, ruffy)
         script.append({'calls': calls, 'cards': cards, 'style': st})
     return script
 
